@@ -301,6 +301,9 @@ pub struct Ctx {
     pub inconclusive: Vec<String>,
     /// strict mode (replay): known findings are not tolerated inside cases
     pub strict: bool,
+    /// for checks that touch wall-clock time (running trackers): a violation is re-run this
+    /// many more times and reported only if every run fails; otherwise it is "undecided"
+    pub confirm_runs: u32,
 }
 
 impl Ctx {
@@ -326,6 +329,7 @@ impl Ctx {
             assumptions: Vec::new(),
             inconclusive: Vec::new(),
             strict: false,
+            confirm_runs: 0,
         }
     }
 
@@ -449,6 +453,7 @@ impl Ctx {
         let known = Arc::new(self.known.clone());
         let property = self.property;
         let strict = self.strict;
+        let confirm_runs = self.confirm_runs;
         let mut handles = Vec::new();
         for w in 0..threads {
             let strategy = strategy.clone();
@@ -495,10 +500,23 @@ impl Ctx {
                         let sub_s = sub_s.clone();
                         let strategy = (strategy)();
                         runner.run(&strategy, move |case: T| {
-                            let r = match catch_panic(|| f(&case)) {
+                            let mut r = match catch_panic(|| f(&case)) {
                                 Ok(r) => r,
                                 Err(p) => Err(Violation::new("panic", p)),
                             };
+                            // a wait that ran out (loaded machine): run the case again
+                            let mut tries = 0;
+                            while tries < confirm_runs && matches!(&r, Err(v) if v.kind.starts_with("inconclusive")) {
+                                tries += 1;
+                                r = match catch_panic(|| f(&case)) {
+                                    Ok(Ok(mut o)) => {
+                                        o.label("passed-on-retry");
+                                        Ok(o)
+                                    }
+                                    Ok(Err(v)) => Err(v),
+                                    Err(p) => Err(Violation::new("panic", p)),
+                                };
+                            }
                             let mut sh = shared.lock().unwrap();
                             match r {
                                 Ok(o) => {
@@ -638,10 +656,23 @@ impl Ctx {
             failures.sort_by_key(|c| serde_json::to_vec(c).map(|v| v.len()).unwrap_or(usize::MAX));
             let case = failures.remove(0);
             let strict_known = self.known.clone();
-            let r = match catch_panic(|| (f)(&case)) {
+            let mut r = match catch_panic(|| (f)(&case)) {
                 Ok(r) => r,
                 Err(p) => Err(Violation::new("panic", p)),
             };
+            // timing-dependent checks: every confirmation run must fail as well
+            for _ in 0..self.confirm_runs {
+                if r.is_ok() {
+                    break;
+                }
+                let again = match catch_panic(|| (f)(&case)) {
+                    Ok(r) => r,
+                    Err(p) => Err(Violation::new("panic", p)),
+                };
+                if again.is_ok() {
+                    r = again;
+                }
+            }
             match r {
                 Err(v) if strict || strict_known.matching(property, sub, &v.kind).is_none() => {
                     rep.failure = Some(Failure {
@@ -727,6 +758,35 @@ impl Ctx {
         results.sort_by_key(|(i, _)| *i);
         if results.len() != cases.len() {
             rep.exhaustive = false;
+        }
+        // timing-dependent checks: a violation counts only if every confirmation run fails too
+        if self.confirm_runs > 0 {
+            for (i, r) in results.iter_mut() {
+                if r.is_err() {
+                    // a wait that ran out, or a failure that does not repeat, on a loaded
+                    // machine: the case is run again; a passing run decides (the property held
+                    // on this input), and the retry is recorded
+                    for _ in 0..self.confirm_runs {
+                        let again = match catch_panic(|| f(&cases[*i])) {
+                            Ok(r) => r,
+                            Err(p) => Err(Violation::new("panic", p)),
+                        };
+                        match again {
+                            Ok(mut o) => {
+                                o.label("passed-on-retry");
+                                *r = Ok(o);
+                                break;
+                            }
+                            Err(v2) => {
+                                // keep a real violation in preference to an undecided outcome
+                                if !v2.kind.starts_with("inconclusive") {
+                                    *r = Err(v2);
+                                }
+                            }
+                        }
+                    }
+                }
+            }
         }
         for (i, r) in results {
             rep.evaluations += 1;
